@@ -12,7 +12,7 @@ dependents) flows, through iterator adaptors only, into exactly the squeezed_out
 its function, and that report is reached on every path on which something was removed (it may be
 skipped only by the is_empty test of the very list it would report); squeezed_out_txs is not
 reachable from the inclusion paths (block extraction, committed / preconfirmed-committed
-processing); expiry in the pool worker goes through remove_transactions_and_dependents.
+processing); expiry in the pool worker goes through remove_transactions_and_dependents. On a cycle through a removal that passes no report the reported list is never re-assigned (it accumulates); (4) in every report closure the tuple id and the status id are the removed entry's own id.
 """
 NOT_DECIDED = """Exactly-once across different calls for the same id (needs the C16 invariant that an
 id is pooled once); what the status manager does with the report."""
